@@ -371,9 +371,14 @@ impl Gen {
             let id = self.order[s].remove(idx);
             return Op::new(if table { Kd::TFindEntry } else { Kd::Remove }).s(s).a(id as i64).b(1);
         }
-        // lookups, half of them of absent keys
+        // lookups, half of them of absent keys; now and then a value is replaced in place (live size unchanged)
         let id = if rng.below(2) == 0 { self.key(rng, sv, 100) } else { self.universe + self.fresh_counter + 1 + rng.below(1000) as u32 };
-        Op::new(if table { Kd::TFind } else { *rng.pick(&[Kd::Get, Kd::ContainsKey, Kd::GetView]) }).s(s).a(id as i64)
+        if !table && rng.below(5) == 0 {
+            // and_replace_entry_with(Some) / match + replace_entry_with(Some)
+            let chain = if rng.below(2) == 0 { vec![0, 7] } else { vec![0, 9, 17] };
+            return Op::new(Kd::Entry).s(s).a(self.key(rng, sv, 100) as i64).b(rng.below(1 << 20) as i64).v(chain);
+        }
+        Op::new(if table { *rng.pick(&[Kd::TFind, Kd::TIterHash, Kd::TIterHashMut]) } else { *rng.pick(&[Kd::Get, Kd::ContainsKey, Kd::GetView]) }).s(s).a(id as i64).c(7)
     }
 
     pub fn next(&mut self, rng: &mut Rng, view: &WorldView) -> Op {
